@@ -169,29 +169,32 @@ class Socket(base_socket.BaseSocket):
             # the socket was already connected, so this is an upgrade
             self.upgrading = True  # hold packet sends during the upgrade
 
-            pkt = websocket_wait()
-            decoded_pkt = packet.Packet(encoded_packet=pkt)
-            if decoded_pkt.packet_type != packet.PING or \
-                    decoded_pkt.data != 'probe':
-                self.server.logger.info(
-                    '%s: Failed websocket upgrade, no PING packet', self.sid)
-                self.upgrading = False
-                return []
-            ws.send(packet.Packet(packet.PONG, data='probe').encode())
-            self.queue.put(packet.Packet(packet.NOOP))  # end poll
+            try:
+                pkt = websocket_wait()
+                decoded_pkt = packet.Packet(encoded_packet=pkt)
+                if decoded_pkt.packet_type != packet.PING or \
+                        decoded_pkt.data != 'probe':
+                    self.server.logger.info(
+                        '%s: Failed websocket upgrade, no PING packet',
+                        self.sid)
+                    return []
+                ws.send(packet.Packet(packet.PONG, data='probe').encode())
+                self.queue.put(packet.Packet(packet.NOOP))  # end poll
 
-            pkt = websocket_wait()
-            decoded_pkt = packet.Packet(encoded_packet=pkt)
-            if decoded_pkt.packet_type != packet.UPGRADE:
-                self.upgraded = False
-                self.server.logger.info(
-                    ('%s: Failed websocket upgrade, expected UPGRADE packet, '
-                     'received %s instead.'),
-                    self.sid, pkt)
+                pkt = websocket_wait()
+                decoded_pkt = packet.Packet(encoded_packet=pkt)
+                if decoded_pkt.packet_type != packet.UPGRADE:
+                    self.upgraded = False
+                    self.server.logger.info(
+                        ('%s: Failed websocket upgrade, expected UPGRADE '
+                         'packet, received %s instead.'),
+                        self.sid, pkt)
+                    return []
+                self.upgraded = True
+            finally:
+                # however the handshake ends (including an oversize or
+                # undecodable frame or a closed socket), resume polling
                 self.upgrading = False
-                return []
-            self.upgraded = True
-            self.upgrading = False
         else:
             self.connected = True
             self.upgraded = True
